@@ -8,8 +8,6 @@ use syltmodel::ast::*;
 pub struct Loc {
     /// innermost placement class (block classes for statements and whole expression statements)
     pub placement: &'static str,
-    /// innermost enclosing block class (`global` inside a global value initialiser)
-    pub block: &'static str,
     /// blocks / function literals entered below the enclosing top-level definition
     pub depth: usize,
     pub closure_depth: usize,
@@ -64,7 +62,6 @@ impl Cx {
     fn loc(&self, value_unused: bool, in_tuple: bool, last: bool) -> Loc {
         Loc {
             placement: self.placement,
-            block: self.block,
             depth: self.depth,
             closure_depth: self.cdepth,
             global: self.global,
